@@ -1,4 +1,4 @@
-"""Child of C17: answers a batch of requests twice in this process and prints the serialised results.
+"""Child of C17: answers a batch of requests three times in this process (new project, new project, same project again) and prints the serialised results.
 Run as:  python c17_child.py <batch.json> <prealloc>   (PYTHONHASHSEED set by the parent)"""
 import json
 import logging
@@ -13,8 +13,8 @@ from supp.project import Project
 from supp import assistant, linter
 
 
-def answer(req):
-    project = Project(list(req['roots']))
+def answer(req, project=None):
+    project = project or Project(list(req['roots']))
     try:
         if req['kind'] == 'location':
             return ['ok', assistant.location(project, req['src'], tuple(req['pos']), req['filename'])]
@@ -29,6 +29,8 @@ def answer(req):
 out = []
 for req in batch['requests']:
     a = answer(req)
-    b = answer(req)
-    out.append([json.dumps(a, sort_keys=True), json.dumps(b, sort_keys=True)])
+    shared = Project(list(req['roots']))
+    b = answer(req, shared)
+    c = answer(req, shared)             # the identical request once more on the same project
+    out.append([json.dumps(a, sort_keys=True), json.dumps(b, sort_keys=True), json.dumps(c, sort_keys=True)])
 json.dump(out, sys.stdout)
